@@ -50,6 +50,11 @@ type c07In struct {
 	FirstStatus int    `json:"firstStatus"`
 	FirstBody   []byte `json:"firstBody"`
 
+	// Mirror: the proxy has a mirrorPool (second recording backend) whose filter matches
+	// requests carrying "X-Mirror: 1"; MirrorHit: the client sends that header
+	Mirror    bool `json:"mirror"`
+	MirrorHit bool `json:"mirrorHit"`
+
 	Zip    bool   `json:"zip"`
 	MinLen int    `json:"minLen"`
 	AE     string `json:"ae"`
@@ -79,6 +84,7 @@ type c07Obs struct {
 	BBody    []byte `json:"bbody"`    // body of the first complete request
 	BBody2   []byte `json:"bbody2"`   // body of the second complete request (retries)
 	Panic    string `json:"panic"`
+	Mirrored int    `json:"mirrored"` // requests the mirror backend had received when the case ended (informational: asynchronous)
 
 	// big mode
 	BodyLen    int  `json:"bodyLen"`
@@ -104,7 +110,14 @@ func c07PipelineYAML(addr string, pool, proxy int64) string {
 }
 
 func c07PipelineYAMLFor(addr string, in *c07In) string {
+	return c07PipelineYAMLMirror(addr, "", in)
+}
+
+func c07PipelineYAMLMirror(addr, mirrorAddr string, in *c07In) string {
 	y := c07PipelineYAMLZip(addr, in.Pool, in.Proxy, in.Zip, in.MinLen)
+	if in.Mirror && mirrorAddr != "" {
+		y += fmt.Sprintf("  mirrorPool:\n    filter:\n      headers:\n        \"X-Mirror\":\n          exact: \"1\"\n    servers:\n    - url: http://%s\n", mirrorAddr)
+	}
 	if in.Retry {
 		y = strings.Replace(y, "filters:\n", "resilience:\n- name: again\n  kind: Retry\n  maxAttempts: 2\n  waitDuration: 1ms\nfilters:\n", 1)
 		y = strings.Replace(y, "  pools:\n  - ", fmt.Sprintf("  pools:\n  - retryPolicy: again\n    failureCodes: [%d]\n    ", in.FirstStatus), 1)
@@ -184,6 +197,9 @@ func c07Serve(fr *c07Front, be *c07Backend, in *c07In) (obs c07Obs) {
 	if in.AE != "" {
 		fmt.Fprintf(&req, "Accept-Encoding: %s\r\n", in.AE)
 	}
+	if in.MirrorHit {
+		req.WriteString("X-Mirror: 1\r\n")
+	}
 	half := false
 	switch in.ReqEnc {
 	case "cl":
@@ -244,9 +260,21 @@ func c07Run(in c07In) (obs c07Obs) {
 		first := fmt.Sprintf("HTTP/1.1 %d First\r\nContent-Type: text/plain\r\nContent-Length: %d\r\n\r\n%s", in.FirstStatus, len(in.FirstBody), in.FirstBody)
 		be.SetRawSeq([][]byte{[]byte(first), c07Script(&in)})
 	}
-	fr := c07StartFront(c07ServerYAML(in.Srv, in.Path), c07PipelineYAMLFor(be.Addr(), &in))
+	mirrorAddr := ""
+	var mb *c07Backend
+	if in.Mirror {
+		mb = c07StartBackend([]byte("HTTP/1.1 200 Mirrored\r\nContent-Length: 8\r\n\r\nmirrored"))
+		defer mb.Close()
+		mirrorAddr = mb.Addr()
+	}
+	fr := c07StartFront(c07ServerYAML(in.Srv, in.Path), c07PipelineYAMLMirror(be.Addr(), mirrorAddr, &in))
 	defer fr.Close()
-	return c07Serve(fr, be, &in)
+	obs = c07Serve(fr, be, &in)
+	if mb != nil {
+		mb.Quiesce()
+		obs.Mirrored = len(mb.Seen())
+	}
+	return
 }
 
 func c07RunReload(h *c07ReloadIn) (obs c07ReloadObs) {
@@ -296,8 +324,8 @@ func c07Limits(r *vfRand) (outer, inner, eff int64) {
 		switch r.Intn(6) {
 		case 0:
 			return 0
-		case 1:
-			return -1
+		case 1: // any negative value means "stream"
+			return []int64{-1, -1, -2, -1024, -9223372036854775807}[r.Intn(5)]
 		default:
 			return int64(r.Range(8, 64))
 		}
@@ -395,6 +423,9 @@ func c07Gen(r *vfRand, adv bool) (in c07In) {
 			in.Zip = false
 		}
 	}
+	if r.Chance(1, 5) {
+		in.Mirror, in.MirrorHit = true, r.Chance(2, 3)
+	}
 	c07FillOracle(&in)
 	return
 }
@@ -437,6 +468,27 @@ func c07GenRetry(r *vfRand) (in c07In) {
 		in.ReqEnc, in.ReqChunk, in.ReqTerm = "chunked", r.PickInt(7, 100, 4096), true
 	}
 	in.Retry, in.FirstStatus, in.FirstBody = true, 503, []byte("first attempt failed")
+	m := r.PickInt(0, 2, 40)
+	in.RespStatus, in.RespEnc, in.RespDecl, in.RespBody = r.PickInt(200, 200, 201, 404), "cl", m, c07Bytes(r, m)
+	return
+}
+
+// c07GenMirror: a mirrorPool matching the request, in front of streamed (any negative
+// limit) and buffered uploads with announced and chunked bodies: the main backend must get
+// the client's body whatever the mirror does.
+func c07GenMirror(r *vfRand) (in c07In) {
+	in.Srv = []int64{-1, -1, -2, -1024, -1, 0}[r.Intn(6)]
+	if r.Chance(1, 4) {
+		in.Srv, in.Path = 16, []int64{-1, -9223372036854775807}[r.Intn(2)]
+	}
+	n := r.PickInt(64, 5000, 20000, 70000, 70000, 200000)
+	in.ReqBody = c07Bytes(r, n)
+	if r.Chance(3, 4) {
+		in.ReqEnc, in.ReqDecl = "cl", n
+	} else {
+		in.ReqEnc, in.ReqChunk, in.ReqTerm = "chunked", r.PickInt(100, 4096), true
+	}
+	in.Mirror, in.MirrorHit = true, r.Chance(5, 6)
 	m := r.PickInt(0, 2, 40)
 	in.RespStatus, in.RespEnc, in.RespDecl, in.RespBody = r.PickInt(200, 200, 201, 404), "cl", m, c07Bytes(r, m)
 	return
@@ -577,6 +629,8 @@ func TestVerifC07(t *testing.T) {
 			in = c07GenZipLying(root.Fork(i))
 		} else if i%10 == 9 {
 			in = c07GenRetry(root.Fork(i))
+		} else if i%10 == 4 {
+			in = c07GenMirror(root.Fork(i))
 		}
 		out.Emit(vfCase{ID: fmt.Sprintf("%s-body-%d", src, i), Src: src, Grp: "body", In: in, Obs: c07Run(in)})
 	}
